@@ -64,10 +64,21 @@ func assemble(n *chaingen.Node, v1 []types.Transaction, v2 []types.V2Transaction
 	return b
 }
 
-func runCase(cs poolsim.Case, coqWanted bool) (string, *failure, stats, *poolsim.Runner) {
+func runCase(cs poolsim.Case, coqWanted bool) (coqOut string, failOut *failure, stOut stats, rOut *poolsim.Runner) {
 	t := cs.Tree()
 	w := poolsim.NewWorld(t)
 	var fail *failure
+	defer func() {
+		if p := recover(); p != nil {
+			coqOut, failOut = "", &failure{"c05-state-corrupted", fmt.Sprint("the history broke an invariant of the harness (memory shared with the manager was modified?): ", p)}
+			if stOut == nil {
+				stOut = stats{}
+			}
+			if rOut == nil {
+				rOut = poolsim.NewRunner(w, func(string, string) {})
+			}
+		}
+	}()
 	report := func(kind, detail string) {
 		if fail == nil {
 			fail = &failure{kind, detail}
@@ -107,13 +118,6 @@ func runCase(cs poolsim.Case, coqWanted bool) (string, *failure, stats, *poolsim
 			report("c05-tip-state-differs", "TipState differs from the linear replay of the best chain")
 			return
 		}
-		// law L3 on this run's data: the list just validated, cut at the weight limit, makes a valid block
-		twin := w.NewTwin(tip)
-		lb := assemble(tip, v1, v2)
-		if err := twin.AddBlocks([]types.Block{lb}); err != nil || twin.Tip().ID != lb.ID() {
-			report("c05-law-L3-violated", fmt.Sprintf("a block assembled from a list that core validated in order, within the weight limit, was rejected: %v", err))
-			return
-		}
 		// 2. a block mined from the pool is accepted by a fresh linear node
 		b, ok := r.MineOnly()
 		if fail != nil {
@@ -126,6 +130,13 @@ func runCase(cs poolsim.Case, coqWanted bool) (string, *failure, stats, *poolsim
 		twin2 := w.NewTwin(tip)
 		if err := twin2.AddBlocks([]types.Block{b}); err != nil || twin2.Tip().ID != b.ID() {
 			report("c05-mined-block-rejected", fmt.Sprintf("after %s the block MineBlock assembled from the pool (%d v1, %d v2 transactions on height %d) is rejected by a fresh node: %v", what, len(b.Transactions), len(b.V2Transactions()), tip.Height+1, err))
+			return
+		}
+		// law L3 on this run's data: the list just validated, cut at the weight limit, makes a valid block
+		twin := w.NewTwin(tip)
+		lb := assemble(tip, v1, v2)
+		if err := twin.AddBlocks([]types.Block{lb}); err != nil || twin.Tip().ID != lb.ID() {
+			report("c05-law-L3-violated", fmt.Sprintf("a block assembled from a list that core validated in order, within the weight limit, was rejected: %v", err))
 			return
 		}
 		st["mined-blocks-accepted-by-twin"]++
@@ -392,9 +403,10 @@ func corpus(seed uint64) []poolsim.Case {
 	c.Plan = []poolsim.Step{all(4), {Kind: "submit", Flavor: "form-v1-require", Seed: 1}, {Kind: "mine"}, {Kind: "submit", Flavor: "fresh-v2", Seed: 2}, {Kind: "mine"}, {Kind: "mine"}, {Kind: "mine"}, {Kind: "submit", Flavor: "fresh-v2", Seed: 3}, {Kind: "mine"}, {Kind: "mine"}}
 	out = append(out, c)
 	// a pool that fills a block exactly
-	for s := uint64(0); s < 3; s++ {
+	for _, slack := range []int{0, 7, 11, 12, 13} {
 		c = lin(2, 3)
-		c.Plan = []poolsim.Step{all(3), {Kind: "submit", Flavor: "exact-fill-v2", Seed: 10 + s + seed}, {Kind: "mine"}, {Kind: "submit", Flavor: "fresh-v2", Seed: 4}}
+		c.Seed += uint64(slack)
+		c.Plan = []poolsim.Step{all(3), {Kind: "submit", Flavor: fmt.Sprintf("exact-fill-v2:%d", slack), Seed: 10 + seed}, {Kind: "mine"}, {Kind: "submit", Flavor: "fresh-v2", Seed: 4}}
 		out = append(out, c)
 	}
 	// a full pool: eviction by fee rate
@@ -475,7 +487,20 @@ func run(c *hx.Ctx) {
 		if i%10 == 9 {
 			cs.Opts.Corruptions, cs.Opts.OnInvalid = 1+g.Intn(2), g.Intn(2) // monitors only
 		}
-		t := cs.Tree()
+		var t *chaingen.Tree
+		func() {
+			defer func() {
+				if p := recover(); p != nil {
+					// blocks built from the lists the manager returned no longer replay: they share memory with the pool
+					res.Fail("c05-generated-chain-corrupted", fmt.Sprint("building the fork tree with the chain generator (blocks mined from PoolTransactions/V2PoolTransactions on a linear node) failed: ", p), map[string]any{"case": cs})
+					t = nil
+				}
+			}()
+			t = cs.Tree()
+		}()
+		if t == nil {
+			continue
+		}
 		cs.Plan = poolsim.GenPlan(rng.New(cs.Seed^0x5ca1ab1e), t, flavors, 2)
 		doCase(cs)
 	}
